@@ -1155,6 +1155,7 @@ func (e *Engine) handleClosureArg(lit *ast.FuncLit, fv VFunc, st *State, where s
 			n[k] = v
 		}
 		n["calls"] = VTerm{T: calls, Typ: types.Typ[types.Int]}
+		n["fn"] = fv // the closure's own call log: fn.ret(k), fn.arg0(k)
 		for k, v := range extra {
 			n[k] = v
 		}
@@ -1252,6 +1253,8 @@ func (e *Engine) handleClosureArg(lit *ast.FuncLit, fv VFunc, st *State, where s
 				unsup("closure falls off the end")
 			}
 			extra["ret"] = e.coerce(o.ret[0], lsig.Results().At(0).Type())
+			// by definition of the call log, the value returned by this call is fn.ret(k)
+			s2.assume(mkEq(term(e.fnRet(fv, kc)), term(extra["ret"])))
 		}
 		for _, cl := range e.litClauses(lit, "use") {
 			env := withCalls(s2, kc, extra)
